@@ -403,6 +403,37 @@ def run(ctx):
                    "errors are relative to that text, while the error shows the original source" % (name_.split("::")[-1], ", ".join(bad_)),
                    c_.fn.where(c_.bb))
     ctx.floor("C14.F10 places that hand the template source to the parser / generator / debug info", n10, 7)
+    # F12 (round 10, seed C14-10): every instruction can be where an error is raised (with fuel the charge sits in front of
+    # *every* dispatch), so the line / span tables must not treat instruction kinds differently: where a record is
+    # appended to them no dominating condition looks at the instruction that is being added ("text and jumps never fail"
+    # left the span of the expression before in place for an OutOfFuel raised at the text that follows).
+    INSTR_T = "minijinja::compiler::instructions::Instruction"
+    n12 = 0
+    for f_ in prog.fns.values():
+        if f_.crate != "minijinja" or not f_.loc.f.endswith("compiler/instructions.rs"):
+            continue
+        for c_ in f_.calls():
+            if not c_.name.endswith("Vec::push") or len(c_.args) < 2 or "c" in c_.args[1]:
+                continue
+            recs = [o for o in flow.origins(f_, c_.args[1]) if o.kind == "agg" and (o.rv.get("adt") or "").endswith(("::SpanInfo", "::LineInfo"))]
+            if not recs:
+                continue
+            n12 += 1
+            culprit = None
+            for (sb_, taken_) in flow.guards(f_, c_.bb):
+                cd_ = flow.cond_of(f_, sb_)
+                if cd_.kind == "discr" and cd_.adt == INSTR_T:
+                    culprit = "a match on the instruction"
+                elif flow.matches_variants(prog, f_, sb_, INSTR_T) is not None or _bool_from_enum(f_, sb_, INSTR_T):
+                    culprit = "a matches!(..) on the instruction"
+                elif cd_.kind == "call" and any(f_.locals[op_place(a_)["l"]].get("adt") == INSTR_T for a_ in cd_.call.args
+                                                if op_place(a_) is not None and "p" not in op_place(a_)):
+                    culprit = "a test of the instruction (%s)" % cd_.call.name.split("::")[-1]
+            ctx.ob("C14.F12.location-records-do-not-depend-on-the-instruction-kind", "%s|%s" % (f_.path.split("::")[-1], recs[0].rv["adt"].split("::")[-1]),
+                   culprit is None, "the record is appended under %s: instructions of some kinds keep the location of what came before"
+                   % culprit if culprit else "no condition on the instruction", f_.where(c_.bb))
+    if any(f_.loc.f.endswith("compiler/instructions.rs") for f_ in prog.fns.values()):
+        ctx.floor("C14.F12 location records appended", n12, 2)
     # F11: the token stream hands a pending tokenizer error out *once* (`current()` replaces it by "end of input").
     # Whoever asks for the current token therefore returns that error; matching it away (`matches!(stream.current(),
     # Ok(Some(..)))` in a guard, `if let Ok(..) = ..`) loses the real error and the parser fails later with
@@ -424,6 +455,38 @@ def run(ctx):
     ctx.ob("C14.F11.pending-tokenizer-error-is-handed-on", "all-parser-functions", True, "calls checked: %d" % n11, "")
     ctx.floor("C14.F11 calls of TokenStream::current", n11, 60)
     ctx.sample({"Err exits": len(errs), "process_err calls": len(perr)})
+
+
+def _bool_from_enum(f, sb, adt):
+    """is the bool this switch tests computed (through copies / negation) from constants assigned under a match on `adt`"""
+    p = op_place(f.term(sb)["discr"])
+    if p is None or "p" in p:
+        return False
+    seen, work = set(), [p["l"]]
+    while work and len(seen) < 12:
+        l = work.pop()
+        if l in seen:
+            continue
+        seen.add(l)
+        for d in flow.whole_defs(f, l):
+            if d.kind != "stmt":
+                continue
+            rv = d.rv
+            if rv["k"] == "use" and "c" in rv["op"]:
+                for (gb, taken) in flow.guards(f, d.bb):
+                    cd = flow.cond_of(f, gb)
+                    if cd.kind == "discr" and cd.adt == adt:
+                        return True
+            elif rv["k"] == "use" and op_place(rv["op"]) is not None and "p" not in op_place(rv["op"]):
+                work.append(op_place(rv["op"])["l"])
+            elif rv["k"] == "un" and op_place(rv["a"]) is not None and "p" not in op_place(rv["a"]):
+                work.append(op_place(rv["a"])["l"])
+            elif rv["k"] == "bin":
+                for k in ("a", "b"):
+                    q = op_place(rv[k])
+                    if q is not None and "p" not in q:
+                        work.append(q["l"])
+    return False
 
 
 def _arm_of(fn, bb):
